@@ -10,7 +10,5 @@ RULE = ("random histories with window 3 / max-missed 2 / jail 3 ticks, 40 % abse
 def run(tier, seed, work):
     quick = tier == "quick"
     mc = [("MC_Locking.tla", "MC_Locking_base.cfg" if quick else "MC_Locking_C14_thorough.cfg")]
-    return verif.run_stateful_check("C14", tier, seed, work, mc_list=mc, groups=lc.groups("C14", seed + 3, quick) + [
-                                        # jail time, missed-block counters and tombstones must survive a restart from an exported state
-                                        ("Trace_Locking.tla", "Trace_Locking_C14_pr1.cfg", [("c14reimp_%d" % j, ["reimport", "-n", 2 if quick else 12, "-depth", 30, "-seed", seed * 1000 + 320 + j, "-mode", "locking"]) for j in range(4 if quick else 8)])], key_fn=lc.key,
+    return verif.run_stateful_check("C14", tier, seed, work, mc_list=mc, groups=lc.groups("C14", seed + 3, quick), key_fn=lc.key,
                                     level="model_checking", assumptions=lc.COMMON_ASSUME, rule=RULE)
